@@ -31,6 +31,8 @@ def make_scenario(mod, prop, seed, i, tier) -> dict:
         from .core import ARGFORMS
 
         sc["argform"] = rng.choice(ARGFORMS)
+    if getattr(mod, "VARY_KNOBS", False):  # drawn after everything else, for the same reason
+        sc["knobs"] = rng.choice([None, None, None, 257, 1000, 4099])
     sc.update({"property": prop, "seed": seed, "run": i, "format": 1})
     return sc
 
